@@ -17,5 +17,6 @@ CONSTANTS
   Alias = {}
   TrackTouch = TRUE
   MisTag = {"sb_rem"}
+  BufOrder = "seq"
 INVARIANTS TypeOK ResultsIgnoreTouched
 CHECK_DEADLOCK FALSE
